@@ -43,3 +43,10 @@ def satInt (bits : Nat) (n : Int) : Int :=
   let hi : Int := (2 : Int) ^ (bits - 1) - 1
   let lo : Int := -((2 : Int) ^ (bits - 1))
   if n > hi then hi else if n < lo then lo else n
+
+/-- Rust `iter.try_for_each(f)`: stop at the first error -/
+def tryForEach {β ε : Type} (f : β → Except ε Unit) : List β → Except ε Unit
+  | [] => .ok ()
+  | x :: xs => match f x with
+    | .error e => .error e
+    | .ok _ => tryForEach f xs
